@@ -102,20 +102,81 @@ XalanOutputStream::write(
 
     if (theBufferLength + m_buffer.size() > m_bufferSize)
     {
-        flushBuffer();
+        flushFullBuffer();
     }
 
-    if (theBufferLength > m_bufferSize)
+    if (theBufferLength + m_buffer.size() > m_bufferSize)
     {
-        assert(m_buffer.empty() == true);
+        // Too much to buffer, so it goes straight to the transcoder.  The
+        // buffer is empty, or it holds the high surrogate of a pair that
+        // this data completes.  A high surrogate at the end of this data
+        // waits in the buffer for its other half, like one at the end of
+        // a full buffer.
+        size_type   theLength = theBufferLength;
 
-        doWrite(theBuffer, theBufferLength);
+        const bool  fKeepLast =
+            theLength > 0 &&
+            0xD800u <= theBuffer[theLength - 1] &&
+            theBuffer[theLength - 1] < 0xDC00u;
+
+        if (fKeepLast == true)
+        {
+            --theLength;
+        }
+
+        if (m_buffer.empty() == false)
+        {
+            if (theLength > 0)
+            {
+                m_buffer.push_back(*theBuffer);
+
+                ++theBuffer;
+                --theLength;
+            }
+
+            flushBuffer();
+        }
+
+        if (theLength > 0)
+        {
+            doWrite(theBuffer, theLength);
+        }
+
+        if (fKeepLast == true)
+        {
+            m_buffer.push_back(theBuffer[theLength]);
+        }
     }
     else
     {
         m_buffer.insert(m_buffer.end(),
                         theBuffer,
                         theBuffer + theBufferLength);
+    }
+}
+
+
+
+void
+XalanOutputStream::flushFullBuffer()
+{
+    // The transcoder cannot do anything with a high surrogate on its
+    // own, so don't cut a surrogate pair in two...
+    if (m_buffer.empty() == false &&
+        0xD800u <= m_buffer.back() &&
+        m_buffer.back() < 0xDC00u)
+    {
+        const XalanDOMChar  theHighSurrogate = m_buffer.back();
+
+        m_buffer.pop_back();
+
+        flushBuffer();
+
+        m_buffer.push_back(theHighSurrogate);
+    }
+    else
+    {
+        flushBuffer();
     }
 }
 
@@ -195,6 +256,28 @@ XalanOutputStream::transcode(
                     throw TranscodingException(
                             theExceptionBuffer,
                             0);
+                }
+            }
+
+            if (theSourceBytesEaten == 0 &&
+                theTargetBytesEaten == 0 &&
+                theTargetSize >= 8)
+            {
+                // There is room for any character, and the transcoder does
+                // not move: what is next in the source is something it will
+                // never consume (half of a surrogate pair).  More room would
+                // not change that...
+                if (m_throwTranscodeException == true)
+                {
+                    XalanDOMString  theExceptionBuffer(theDestination.getMemoryManager());
+
+                    throw TranscodingException(
+                            theExceptionBuffer,
+                            0);
+                }
+                else
+                {
+                    theSourceBytesEaten = 1;
                 }
             }
 
